@@ -388,6 +388,9 @@ let check (case : Sexp.t) : unit =
     if nfaulted > 0 then bump "nontrivial";
     (match sres with
      | Atom "panic" -> result id "VIOL" "fault-panic" (Printf.sprintf "%s panicked under fault plan %s" op (Sexp.to_string (List plan)))
+     | _ when (try ignore (itree_of sres); false with Nonfinite -> true) ->
+       (* the operands contain finite numbers only (the same trees parse two lines below in every other case) *)
+       result id "VIOL" "fault-cache" (Printf.sprintf "a non-finite number is stored in the tree after %s under fault plan %s (a NaN / infinite 'witness' lies in no polytope)" op (Sexp.to_string (List plan)))
      | _ ->
        let res = itree_of sres and rf = itree_of sref and ff = itree_of sff in
        let n = res.in_dim in
